@@ -185,7 +185,8 @@ def _declared(case):
             return None
         if kind == "right":
             return real
-        return max(1, real + dec["delta"]) if real + dec["delta"] != real and real + dec["delta"] >= 1 else real + abs(dec["delta"])
+        wrong = real + dec["delta"]
+        return wrong if wrong >= 1 else real + abs(dec["delta"])
 
     comp = size(dec["compressed"], len(a) if a is not None else None)
     unc = size(dec["uncompressed"], len(p))
@@ -317,12 +318,16 @@ def _static_region(case):
     d0 = _initial_doc(case)
     unc = _declared(case)[1]
     kept = _doc_kept(case)
-    if case["earlier"] is None:
-        if kept and len(d0) == 0 and unc is None:
-            return SIG_EMPTY
+    if kept and len(d0) == 0 and unc is None:
+        return SIG_EMPTY
     t0 = _initial_offset(case)
     if t0 is not None:
-        trusted = (kept and case["disk"]["offset_age"] in ("same", "newer")) or (not kept and case["format"] in disk.TAR_FAMILY)
+        if kept:
+            trusted = case["disk"]["offset_age"] in ("same", "newer")
+        elif case["format"] in disk.TAR_FAMILY:  # extracted members keep their (old) mtime
+            trusted = case["path"] == "prepare" or (d0 is None and case["disk"]["archive"][0] != "missing")
+        else:
+            trusted = False
         if trusted:
             state = case["disk"]["offset"][0]
             if state == "truncated" and _table_harmful(t0, p):
@@ -603,6 +608,9 @@ def _check_offsets(env, obs, doc_path, content, before, after):
     )
     if rebuilt:
         obs.violation("offset-table-wrong", msg)
+    elif after[table_path][1] < after[doc_path][1]:
+        # older than the data file and still used: not the known "validated by mtime only" weakness
+        obs.violation("outdated-offset-table-kept", msg + " (the table is older than the document file)")
     else:
         ref = disk.reference_offset_table(content)
         torn = len(table) < len(ref) and ref.startswith(table)
@@ -647,8 +655,8 @@ def run_case(case, obs):
             _check_download_target(env, obs, initial, after_earlier, f"after the earlier run ({rep['status']})")
             if rep["status"] != "crashed" and len(_SERVER.log(key)) > 0:
                 for p in after_earlier:
-                    obs.check(not p.endswith(".tmp") or p in initial and len(_SERVER.log(key)) == 0, "download/tmp-left-behind",
-                              f"[{os.path.basename(p)}] is left after the earlier run ended ({rep['status']})")
+                    obs.check(not p.endswith(".tmp"), "download/tmp-left-behind",
+                              f"[{os.path.basename(p)}] is left after the earlier run talked to the server and {rep['status']}")
         requests_before = len(_SERVER.log(key))
 
         # ---------------- run under test
@@ -718,7 +726,7 @@ def run_case(case, obs):
                         sig = SIG_EMPTY
                     elif case["format"] in (".tar.gz", ".tgz") and arch_path in after and after[arch_path][2] == httpfault.corrupt(_archive_bytes(case)):
                         sig = SIG_TARGZ
-                    elif table_kept:
+                    elif table_kept and after[table_path][1] >= after[doc_path][1]:
                         sig = SIG_STALE
                     else:
                         sig = "doc-content-mismatch"
